@@ -76,6 +76,9 @@ enum Mode {
     Data,
     Read(usize),
     Tokio(usize),
+    /// tokio AsyncRead with ONE k-byte ReadBuf kept across reads until it is full (what `read_exact` does): the
+    /// stream is polled with a partly filled buffer, so a chunk longer than the space left has to be kept for later
+    TokioKeep(usize),
 }
 
 fn num_in_debug(d: &str) -> String {
@@ -109,6 +112,27 @@ async fn read_all<S>(mut s: S, mode: Mode, prog: &Prog, key: Option<u64>)
 where
     S: quic::RecvStream + futures_util::io::AsyncRead + tokio::io::AsyncRead + Unpin,
 {
+    if let Mode::TokioKeep(k) = mode {
+        'outer: loop {
+            let mut raw = vec![0u8; k];
+            let mut rb = tokio::io::ReadBuf::new(&mut raw[..]);
+            while rb.remaining() > 0 {
+                let before = rb.filled().len();
+                match poll_fn(|cx| tokio::io::AsyncRead::poll_read(Pin::new(&mut s), cx, &mut rb)).await {
+                    Ok(()) if rb.filled().len() == before => {
+                        set_end(prog, key, "fin".into());
+                        break 'outer;
+                    }
+                    Ok(()) => push_piece(prog, key, rb.filled()[before..].to_vec()),
+                    Err(e) => {
+                        set_end(prog, key, io_end(&e));
+                        break 'outer;
+                    }
+                }
+            }
+        }
+        std::future::pending::<()>().await;
+    }
     loop {
         match mode {
             Mode::Data => match poll_fn(|cx| s.poll_data(cx)).await {
@@ -140,6 +164,7 @@ where
                     }
                 }
             }
+            Mode::TokioKeep(_) => unreachable!(),
             Mode::Read(k) => {
                 let mut buf = vec![0u8; k];
                 match poll_fn(|cx| futures_util::io::AsyncRead::poll_read(Pin::new(&mut s), cx, &mut buf[..])).await {
@@ -599,7 +624,15 @@ fn main() {
             let npre: usize = npre.parse().unwrap();
             let bidi = *kind == "bi";
             let (split, mode) = match mode.strip_prefix('s') { Some(m) => (true, m), None => (false, *mode) };
-            let mode = if mode == "d" { Mode::Data } else if mode.starts_with('t') { Mode::Tokio(mode[1..].parse().unwrap()) } else { Mode::Read(mode[1..].parse().unwrap()) };
+            let mode = if mode == "d" {
+                Mode::Data
+            } else if mode.starts_with('t') {
+                Mode::Tokio(mode[1..].parse().unwrap())
+            } else if mode.starts_with('x') {
+                Mode::TokioKeep(mode[1..].parse().unwrap())
+            } else {
+                Mode::Read(mode[1..].parse().unwrap())
+            };
             let sid: u64 = if bidi {
                 if s + 4 < (1u64 << 62) {
                     s + 4
